@@ -472,7 +472,7 @@ func panicSites(repo string) (string, error) {
 	}
 	for _, u := range unrec {
 		sep()
-		fmt.Fprintf(&sb, "  .unrecognised %s", leanStr(u))
+		fmt.Fprintf(&sb, "  .unrecognised %s", pani_leanStr(u))
 	}
 	for _, k := range keys {
 		sep()
@@ -493,9 +493,9 @@ func panicSites(repo string) (string, error) {
 			if len(e) > 70 {
 				e = e[:70] + "…"
 			}
-			qs = append(qs, leanStr(e))
+			qs = append(qs, pani_leanStr(e))
 		}
-		fmt.Fprintf(&sb, "  .site %s %s .%s .%s %d [%s]", leanStr(k.file), leanStr(k.fn), k.kind, k.guard, len(ex), strings.Join(qs, ", "))
+		fmt.Fprintf(&sb, "  .site %s %s .%s .%s %d [%s]", pani_leanStr(k.file), pani_leanStr(k.fn), k.kind, k.guard, len(ex), strings.Join(qs, ", "))
 	}
 	sb.WriteString("]\n\n")
 	fmt.Fprintf(&sb, "-- individual sites: %d\n", total)
@@ -571,7 +571,7 @@ func ownerName(t types.Type) string {
 	return ""
 }
 
-func leanStr(s string) string {
+func pani_leanStr(s string) string {
 	var sb strings.Builder
 	sb.WriteByte('"')
 	for _, r := range s {
